@@ -55,3 +55,75 @@ Qed.
 
 Example ex_quorum : quorum ex_vals <= correct_power ex_vals ex_ms.
 Proof. vm_compute. discriminate. Qed.
+
+(* ---------------------------------------------------------------- the same network with the faulty
+   validator 3 voting during the round: a nil prevote, an equivocating prevote for another block,
+   and a forged prevote claiming validator 0 (bad signature), interleaved with the correct
+   prevotes; likewise for the precommits. *)
+From TM Require Import C03.FaultyTally C03.SyncFaulty C03.SyncNetF.
+
+Definition ex_fvote (ty : N) (x : blockid) (i : Z) (ok : bool) : vote :=
+  {| v_type := ty; v_height := 1; v_round := 0; v_bid := x; v_idx := i; v_addr := N.of_nat (11 + Z.to_nat i);
+     v_sig := (900 + Z.to_N i * 10 + ty + match x with None => 0 | Some _ => 5 end)%N; v_ok := ok |}.
+Definition ex_other : blockid := Some (9%N, (1%N, 90%N)).
+
+Definition ex_weave (ty : N) (ds : list delivery) : list item :=
+  match ds with
+  | [a; b; c] => [Faulty (ex_fvote ty None 3 true) 9%N; Correct a; Faulty (ex_fvote ty ex_other 3 true) 9%N; Correct b;
+                  Faulty (ex_fvote ty ex_other 0 false) 9%N; Correct c]
+  | _ => map Correct ds
+  end.
+Definition ex_L2 (m : machine) : list item := ex_weave PREVOTE (PV ex_vals 1 ex_p ex_b (1%N, 70%N) ex_sig ex_peer ex_ms).
+Definition ex_L3 (m : machine) : list item :=
+  ex_weave PRECOMMIT (PCF ex_vals 1 ex_p ex_b (1%N, 70%N) ex_sig ex_peer ex_ms ex_L2).
+
+Example ex_all_decide_faulty :
+  forallb (fun m => existsb is_decide
+                      (concat (snd (run (m_env m) (m_state m) (scheduleF 1 ex_p ex_b (1%N, 70%N) ex_L2 ex_L3 m)))))
+          ex_ms = true /\
+  length (scheduleF 1 ex_p ex_b (1%N, 70%N) ex_L2 ex_L3 (ex_machine 0)) = 14%nat.
+Proof. vm_compute. split; reflexivity. Qed.
+
+Example ex_faulty_hyps :
+  (forall m, In m ex_ms ->
+     correct_part (ex_L2 m) = PV ex_vals 1 ex_p ex_b (1%N, 70%N) ex_sig ex_peer ex_ms /\
+     forall v pr, In (Faulty v pr) (ex_L2 m) -> faulty_vote 1 0 (idxs ex_ms) PREVOTE v) /\
+  (forall m, In m ex_ms ->
+     correct_part (ex_L3 m) = PCF ex_vals 1 ex_p ex_b (1%N, 70%N) ex_sig ex_peer ex_ms ex_L2 /\
+     forall v pr, In (Faulty v pr) (ex_L3 m) -> faulty_vote 1 0 (idxs ex_ms) PRECOMMIT v) /\
+  (forall m, In m ex_ms -> forall pv pc,
+     lookup_round 0 (hv_sets (cs_votes (m_state m))) = Some (pv, pc) ->
+     extra 7%N (1%N, 70%N) (idxs ex_ms) pv /\ extra 7%N (1%N, 70%N) (idxs ex_ms) pc) /\
+  total_power ex_vals - pw_of ex_vals (idxs ex_ms) < quorum ex_vals.
+Proof.
+  assert (EI : idxs ex_ms = [0%nat; 1%nat; 2%nat]) by (vm_compute; reflexivity).
+  rewrite EI.
+  assert (FV : forall ty v, In v [ex_fvote ty None 3 true; ex_fvote ty ex_other 3 true; ex_fvote ty ex_other 0 false] ->
+                            faulty_vote 1 0 [0%nat; 1%nat; 2%nat] ty v).
+  { intros ty v [<-|[<-|[<-|[]]]]; (split; [split; [reflexivity | split; reflexivity]|]);
+      unfold ex_fvote; cbn [v_ok v_idx]; intros A _ C; try discriminate A;
+      change (Z.to_nat 3) with 3%nat in C; destruct C as [C|[C|[C|[]]]]; discriminate C. }
+  assert (E2 : forall m, ex_L2 m = ex_weave PREVOTE (PV ex_vals 1 ex_p ex_b (1%N, 70%N) ex_sig ex_peer ex_ms)) by reflexivity.
+  assert (E3 : forall m, ex_L3 m = ex_weave PRECOMMIT (PCF ex_vals 1 ex_p ex_b (1%N, 70%N) ex_sig ex_peer ex_ms ex_L2)) by reflexivity.
+  assert (W : forall ty a b c,
+            correct_part (ex_weave ty [a; b; c]) = [a; b; c] /\
+            forall v pr, In (Faulty v pr) (ex_weave ty [a; b; c]) ->
+                         In v [ex_fvote ty None 3 true; ex_fvote ty ex_other 3 true; ex_fvote ty ex_other 0 false]).
+  { intros ty a b c. split; [reflexivity|]. intros v pr Hin. cbn [ex_weave In] in Hin.
+    destruct Hin as [H|[H|[H|[H|[H|[H|[]]]]]]]; try discriminate H; injection H as <- _; cbn [In]; auto. }
+  assert (PVl : exists a b c, PV ex_vals 1 ex_p ex_b (1%N, 70%N) ex_sig ex_peer ex_ms = [a; b; c]) by (vm_compute; eauto).
+  assert (PCl : exists a b c, PCF ex_vals 1 ex_p ex_b (1%N, 70%N) ex_sig ex_peer ex_ms ex_L2 = [a; b; c]) by (vm_compute; eauto).
+  destruct PVl as (a2 & b2 & c2 & EPV). destruct PCl as (a3 & b3 & c3 & EPC).
+  split; [|split; [|split]].
+  - intros m _. rewrite E2, EPV. destruct (W PREVOTE a2 b2 c2) as [W1 W2]. split; [exact W1|].
+    intros v pr Hin. apply FV. exact (W2 v pr Hin).
+  - intros m _. rewrite E3, EPC. destruct (W PRECOMMIT a3 b3 c3) as [W1 W2]. split; [exact W1|].
+    intros v pr Hin. apply FV. exact (W2 v pr Hin).
+  - intros m Hm pv pc L.
+    assert (EL : lookup_round 0 (hv_sets (cs_votes (m_state m))) =
+                 Some (new_voteset 1 0 PREVOTE ex_vals, new_voteset 1 0 PRECOMMIT ex_vals)).
+    { destruct Hm as [<-|[<-|[<-|[]]]]; vm_compute; reflexivity. }
+    rewrite EL in L. injection L as <- <-.
+    split; (split; [apply new_voteset_inv | intros K bv Lk; cbn in Lk; discriminate]).
+  - vm_compute. reflexivity.
+Qed.
